@@ -172,13 +172,40 @@ def build(tree, env=None):
         data = bytes.fromhex(tree[5])
         arr = np.frombuffer(data, dtype=np.dtype(tree[3])).copy()
         if tree[2] == "numpyndarray":
-            o = arr.reshape(tuple(tree[4]))
+            o = with_layout(arr.reshape(tuple(tree[4])), tree[6] if len(tree) > 6 else "C")
         else:
             o = arr[0]
     else:
         raise ValueError("cannot build %r" % (t,))
     env[i] = o
     return o
+
+
+def with_layout(a, layout):
+    """the same logical array (values, shape, dtype) held in another memory layout:
+    C, F (Fortran order), T (transpose of a C array), S (strided view of a wider buffer), ST (strided and
+    transposed: neither C- nor F-contiguous, comes back C-contiguous from a pickle), N (negative stride)"""
+    if layout == "C" or a.ndim == 0 or a.size == 0:
+        return a
+    if layout == "F":
+        return np.asfortranarray(a)
+    if layout == "T":
+        return np.ascontiguousarray(a.T).T
+    if layout == "S":
+        big = np.zeros(a.shape[:-1] + (a.shape[-1] * 2,), dtype=a.dtype)
+        big[..., ::2] = a
+        return big[..., ::2]
+    if layout == "ST":
+        b = a.T
+        big = np.zeros(b.shape[:-1] + (b.shape[-1] * 2,), dtype=a.dtype)
+        big[..., ::2] = b
+        return big[..., ::2].T
+    if layout == "N":
+        return np.ascontiguousarray(a[::-1])[::-1]
+    raise ValueError(layout)
+
+
+LAYOUTS = ["C", "F", "T", "S", "ST", "N"]
 
 
 # ------------------------------------------------------------------ Python object -> tree
@@ -242,8 +269,16 @@ def func_hidden(obj):
     for n in obj.__code__.co_names:
         if n in obj.__globals__ and isinstance(obj.__globals__[n], (int, float, str, bytes, bool, tuple)):
             out.append(("global:" + n, obj.__globals__[n]))
-    if obj.__defaults__:
-        pass  # defaults are part of the argument AST
+    try:                      # decorators: part of the source, not of the hashed args / body
+        src = inspect.getsource(obj)
+        indent = re.match(r"(\s*)", src).group(1)
+        if indent:
+            src = re.sub("^" + indent, "", src, flags=re.MULTILINE)
+        node = ast.parse(src).body[0]
+        for i, d in enumerate(getattr(node, "decorator_list", [])):
+            out.append(("decorator:%d" % i, ast.dump(d, annotate_fields=False, include_attributes=False)))
+    except (OSError, SyntaxError, IndexError):
+        pass
     return out
 
 
